@@ -39,6 +39,9 @@ type HarnessCfg struct {
 	Reach       []string         `json:"reach"`
 	Note        string           `json:"note"`
 	ThoroughOnly bool            `json:"thorough_only"`
+	// OnlyKinds: finding kinds that count for THIS property (a harness shared with another
+	// property may assert more than this property states); empty = all kinds
+	OnlyKinds []string `json:"only_kinds"`
 	ReplayRepeat int             `json:"replay_repeat"`
 }
 
@@ -568,7 +571,21 @@ func cmdCheck(args []string) int {
 			fmt.Println(msg)
 			notes = append(notes, msg)
 		}
+		counts := func(kind string) bool {
+			if len(hr.cfg.OnlyKinds) == 0 {
+				return true
+			}
+			for _, k := range hr.cfg.OnlyKinds {
+				if k == kind {
+					return true
+				}
+			}
+			return false
+		}
 		for _, f := range r.Findings {
+			if !counts(f.Kind) {
+				continue // decided under the property this harness belongs to
+			}
 			key := hr.cfg.Func + "/" + f.Key
 			o := hr.findingOutcome[f.Key]
 			if !confirms(f, o) {
@@ -588,6 +605,15 @@ func cmdCheck(args []string) int {
 			violations++
 		}
 		for k, nf := range hr.nativeFailures {
+			nk := "ASSERT"
+			if nf.outcome.Outcome == "panic" || nf.outcome.Outcome == "crash" {
+				nk = "PANIC"
+			} else if nf.outcome.Outcome == "timeout" {
+				nk = "UNWIND"
+			}
+			if !counts(nk) {
+				continue
+			}
 			key := fmt.Sprintf("%s/NATIVE:%s", hr.cfg.Func, nf.outcome.Outcome)
 			skey := strings.ReplaceAll(key, " ", "_")
 			if desc, ok := known.known[prop+" "+skey]; ok {
